@@ -331,6 +331,19 @@ KIDLE_SRC = ("@tweezer\ndef kidle(a: float, b: float):\n    g = grid.from_positi
                "    action.move(grid.shift(g, 0.0, 1.0))\n    action.turn_off(sel, [0])\n    action.turn_off(action.ALL, sel)\n")
 
 SHAPE_PROGS = {
+    # a filled register over a NON-SQUARE zone tiled in both directions, flowing into a fill and gates
+    "tiled-filled-register": ("(zone: grid.Grid[Literal[3], Literal[2]], c: bool)", """
+    z = spec.get_static_trap(zone_id="traps")
+    reg = filled.vacate(z, [(0, 1), (3, 2)])
+    t = filled.repeat(reg, 1, 2, 0.0, 20.0)
+    init.fill([t])
+    gate.local_rz(0.5, t)
+    u = filled.repeat(reg, 2, 1, 30.0, 0.0)
+    if c:
+        u = filled.repeat(filled.vacate(zone, [(2, 0)]), 2, 3, 50.0, 20.0)
+    gate.top_hat_cz(u)
+    gate.local_r(0.25, 0.5, grid.shift(filled.repeat(reg, 2, 2, 30.0, 20.0), 1.0, 1.0))
+"""),
     # views of a filled register taken with index lists that REPEAT a column, flowing into a fill and gates
     "views-of-a-filled-register-with-repeated-indices": ("(zone: grid.Grid[Literal[3], Literal[2]], c: bool)", """
     z = spec.get_static_trap(zone_id="traps")
